@@ -14,7 +14,7 @@ COQ = os.path.join(VERIF, "coq")
 BUILD = os.path.join(VERIF, ".build")
 ORACLE_DIR = os.path.join(BUILD, "oracle")
 HARNESS = os.path.join(VERIF, "harness")
-REPO = "/repo"
+REPO = os.environ.get("VERIF_REPO", "/repo")   # overridden only by tools/sandbox_eval.sh (evaluation of patches on a copy)
 
 ENV = dict(os.environ)
 ENV["CARGO_NET_OFFLINE"] = "true"
